@@ -196,13 +196,17 @@ impl ProtocolStage for CanonicalId {
         repo: &Repository,
         refs: &'a [ReceivedRef],
     ) -> Result<Updates<'a>, error::Prepare> {
-        // SAFETY: checked by `pre_validate` that the `refs/rad/id`
-        // was received
+        // N.b. `pre_validate` lets an empty advertisement through, so
+        // the canonical `refs/rad/id` can still be missing here if the
+        // remote did not advertise it.
+        let rad_id = s
+            .canonical_rad_id()
+            .ok_or_else(|| error::Prepare::Verification {
+                remote: self.remote,
+                err: "the canonical 'rad/id' reference was not advertised".into(),
+            })?;
         let verified = repo
-            .identity_doc_at(
-                *s.canonical_rad_id()
-                    .expect("ensure we got canonicdal 'rad/id' ref"),
-            )
+            .identity_doc_at(*rad_id)
             .map_err(|err| error::Prepare::Verification {
                 remote: self.remote,
                 err: Box::new(err),
